@@ -8,9 +8,9 @@ PATCH="$(pwd)/seeded/$D/patch.diff"
 [ -f "$PATCH" ] || { echo "no $PATCH"; exit 2; }
 PROPS="$*"
 [ -n "$PROPS" ] || PROPS=$(python3 -c "import json;print(json.load(open('seeded/$D/meta.json'))['property'])")
-git -C /repo diff --quiet || { echo "/repo has uncommitted changes"; exit 2; }
-git -C /repo apply "$PATCH" || exit 2
-trap 'git -C /repo checkout -- . ; git -C /repo clean -fdq -- sigpyproc' EXIT
+git -C "${VERIF_REPO:-/repo}" diff --quiet || { echo "/repo has uncommitted changes"; exit 2; }
+git -C "${VERIF_REPO:-/repo}" apply "$PATCH" || exit 2
+trap 'git -C "${VERIF_REPO:-/repo}" checkout -- . ; git -C "${VERIF_REPO:-/repo}" clean -fdq -- sigpyproc' EXIT
 for p in $PROPS; do
   s=$(date +%s)
   out=$(./check $p --tier quick 2>&1); rc=$?
